@@ -642,10 +642,18 @@ class Run:
         chain: list = []
         n = self.sh.top(tid)
         cyc = self.cyc()
+        behind: int | None = None  # cycle in which the nearest recent shield below went up
         while n is not None:
-            chain.append(n)
-            if n.shield and cyc - n.shield_at > 3:
-                break
+            # beyond a shield that went up a moment ago, only what was cancelled before (or
+            # in the cycle in which) the shield went up can still have reached the task
+            if behind is None or not n.cancelled or n.cancelled_at <= behind:
+                chain.append(n)
+
+            if n.shield:
+                if cyc - n.shield_at > 3:
+                    break
+
+                behind = n.shield_at if behind is None else min(behind, n.shield_at)
 
             n = n.parent
 
